@@ -35,6 +35,7 @@ def tensor_list(cx, name, distinct=True, min_len=0, nonempty_numel=False):
     cx.assume(z3.ForAll([j], numel(f(j)) >= (1 if nonempty_numel else 0), patterns=[numel(f(j))]), tag="numel>=0")
     if distinct is True:
         P.seq_index_fn(_FakeInterp(cx), seq)
+        seq.at_key = lambda t: V.TRef(t)
     return seq
 
 
@@ -210,7 +211,8 @@ def disunite_loop():
         it = _FakeInterp(cx)
         jm = frame.vars["jacobian_matrices"]
         m = P.to_symmap(it, jm.payload if isinstance(jm, SymObj) else jm)
-        lens = V.SymSeq(m.keys.length, lambda j: m.get(m.keys.get(j).ref).shape.lead[1])
+        val = m.by_index if m.by_index is not None else (lambda j: m.get(m.keys.get(j).ref))
+        lens = V.SymSeq(m.keys.length, lambda j: val(j).shape.lead[1])
         return m, P.prefix_sum(it, lens)
 
     def havoc(cx, frame, i):
@@ -291,3 +293,174 @@ LOOPS[(f"{TR}.accumulate.Accumulate._compute", 1)] = accumulate_loop()
 
 def expects_grad(ref):
     return z3.And(U("requires_grad", z3.BoolSort(), ref), z3.Or(U("is_leaf", z3.BoolSort(), ref), U("retains_grad", z3.BoolSort(), ref)))
+
+
+# ============================================================================= contract summaries (modular verification)
+# Each transform's _compute is verified in isolation against spec_*() (C15 / C06 checks); when a CALLER (backward,
+# mtl_backward) is verified, the same spec_*() is applied at the call site instead of the callee's body.
+
+
+def payload_map(it, d):
+    return P.to_symmap(it, d.payload if isinstance(d, SymObj) else d)
+
+
+def make_dict(it, clsname, m):
+    """Build a TensorDict subclass instance through its REAL constructor (its shape checks become obligations of the
+    summary: they must not raise)."""
+    return it.call(it.repo.get(f"{TR}.tensor_dict.{clsname}"), [m])
+
+
+def spec_diag_map(it, considered: V.SymSeq, gmap: V.SymMap):
+    """Diagonalize: key t_j -> tensor of shape (R,)+shape(t_j): row r holds, at flat position e, g[t_j][e] if r is the
+    scalar (j, e) in the flattened key order (r = off(j)+e), else 0."""
+    off = offsets(it, considered)
+    idx = P.seq_index_fn(it, considered)
+
+    def get(t):
+        g = gmap.get(t)
+        j = idx(t)
+        return LTen(V.Shape([off.total()], V.TRef(t).shape.tail),
+                    lambda ix: z3.If(ix[0] == off.off(j) + ix[1], g.elem([ix[1]]), ZERO))
+    return V.SymMap(considered, get)
+
+
+def diag_init_contract(interp, args, kwargs):
+    """Diagonalize.__init__(self, considered): considered = ordered_set(considered) (REAL function, may raise on
+    duplicates); indices[j] = (off(j), off(j+1))  [proved: C15.diag loop invariant]."""
+    self, considered = args[0], args[1]
+    od = interp.call(interp.repo.get(f"{TR}._utils.ordered_set"), [considered])
+    self.attrs["considered"] = od
+    keys = P.to_symmap(interp, od).keys if not isinstance(od, dict) else P.conc_seq(list(od.keys()))
+    off = offsets(interp, keys)
+    self.attrs["indices"] = V.SymSeq(keys.length, lambda j: (off.off(j), off.off(lift(j) + 1)))
+    return None
+
+
+def diag_compute_contract(interp, args, kwargs):
+    self, tensors = args[0], args[1]
+    od = self.attrs["considered"]
+    keys = P.to_symmap(interp, od).keys if not isinstance(od, dict) else P.conc_seq(list(od.keys()))
+    gmap = payload_map(interp, tensors)
+    return make_dict(interp, "Jacobians", spec_diag_map(interp, keys, gmap))
+
+
+def spec_jac_seq(it, outs: V.SymSeq, inputs: V.SymSeq, jac_outputs: V.SymSeq, m):
+    return V.SymSeq(inputs.length, lambda k: LTen(V.Shape([m], inputs.get(k).shape.tail),
+                                                  lambda ix, k=k: jac_spec_row(it.cx, outs, inputs, jac_outputs, ix[0], k, ix[1])))
+
+
+def jac_differentiate_contract(interp, args, kwargs):
+    """Jac._differentiate(self, jac_outputs): per input k the (m,)+shape tensor of spec rows; ghost: ceil(m/k) sweeps,
+    all but the last retaining the graph, the last with self.retain_graph; vmap only for chunks of > 1 rows
+    [proved: C15.jac.*]."""
+    self, jac_outputs = args[0], args[1]
+    cx = interp.cx
+    outs = P.to_symmap(interp, self.attrs["outputs"]).keys
+    inputs_map = self.attrs["inputs"]
+    if isinstance(inputs_map, dict) and not inputs_map:
+        return ()
+    inputs = P.to_symmap(interp, inputs_map).keys
+    jo = P.as_symseq(interp, jac_outputs) if V.concrete_iter(jac_outputs) is None else P.conc_seq(V.concrete_iter(jac_outputs))
+    if cx.branch(lift(inputs.length) == 0):
+        return ()
+    cx.oblige("requires.jac.one_cotangent_per_output", lift(jo.length) == lift(outs.length), kind="requires")
+    cx.oblige("requires.jac.at_least_one_output", lift(outs.length) >= 1, kind="requires")
+    m = jo.get(z3.IntVal(0)).shape.lead[0]
+    chunk = self.attrs["chunk_size"]
+    kk = chunk.value if isinstance(chunk, V.Opt) else chunk
+    kn = chunk.is_none if isinstance(chunk, V.Opt) else (chunk is None)
+    # m / max_chunk_size with max_chunk_size = m when chunk is None: division by zero when m = 0
+    cx.oblige("requires.jac.at_least_one_row", lift(m) >= 1, kind="requires")
+    cx.oblige("requires.jac.positive_chunk", z3.Or(lift(kn), lift(kk) > 0) if not isinstance(kn, bool) or not kn else True, kind="requires")
+    cx.event("jac_call", outs=outs, inputs=inputs, rows=m, chunk=chunk, retain=self.attrs["retain_graph"],
+             create_graph=self.attrs["create_graph"], pc_len=len(cx.pc))
+    return spec_jac_seq(interp, outs, inputs, jo, m)
+
+
+def spec_aggregate(it, agg, key_order: V.SymSeq, jmap: V.SymMap):
+    """Aggregate: U = column-wise concatenation over key_order of the matrixified jacobians; v = agg(U);
+    key k_i -> v[offI(i):offI(i+1)] reshaped to shape(k_i).  Returns (U, SymMap)."""
+    offI = offsets(it, key_order)
+    first = jmap.get(key_order.get(z3.IntVal(0)).ref)
+    m = first.shape.lead[0]
+
+    def U_elem(ix):
+        i = offI.blk(ix[1])
+        return jmap.get(key_order.get(i).ref).elem([ix[0], ix[1] - offI.off(i)])
+    Um = LTen(V.Shape([m, offI.total()]), U_elem)
+    v = agg.sym_call(it, [Um], {})
+    idx = P.seq_index_fn(it, key_order)
+    out = V.SymMap(key_order, lambda t: LTen(V.TRef(t).shape, lambda ix, t=t: v.elem([offI.off(idx(t)) + ix[0]]),
+                                             storage=v.storage, fresh=v.fresh))
+    return Um, out
+
+
+def aggregate_compute_contract(interp, args, kwargs):
+    """Aggregate._compute(self, jacobians)  [proved: C15.aggregate.*]."""
+    self, jac = args[0], args[1]
+    cx = interp.cx
+    tr = self.attrs["transform"]  # reshape << aggregate_matrices << matrixify
+
+    def find(o):
+        if isinstance(o, SymObj):
+            if "aggregator" in o.attrs and "key_order" in o.attrs:
+                return o
+            for v in o.attrs.values():
+                r = find(v)
+                if r is not None:
+                    return r
+        return None
+    am = find(tr)
+    if am is None:
+        raise KeyError("no _AggregateMatrices inside Aggregate.transform")
+    ko = am.attrs["key_order"]
+    agg = am.attrs["aggregator"]
+    if isinstance(ko, dict) and not ko:
+        return interp.call(interp.repo.get(f"{TR}.tensor_dict.EmptyTensorDict"), [])
+    keys = P.to_symmap(interp, ko).keys
+    if cx.branch(lift(keys.length) == 0):
+        return interp.call(interp.repo.get(f"{TR}.tensor_dict.EmptyTensorDict"), [])
+    jmap = payload_map(interp, jac)
+    _, out = spec_aggregate(interp, agg, keys, jmap)
+    return make_dict(interp, "Gradients", out)
+
+
+def accumulate_compute_contract(interp, args, kwargs):
+    """Accumulate._compute(self, gradients): raises ValueError, before any write, iff some key does not expect a
+    gradient; otherwise grad'(k) = grad(k) (+) g[k] (in place when it existed, a fresh owned clone otherwise) for every
+    key and nothing else changes  [proved: C06.accumulate.*]."""
+    from tjv.pyvc.core import ExcValue
+    self, grads = args[0], args[1]
+    cx = interp.cx
+    heap = cx.ghost["heap"]
+    if isinstance(grads.payload, dict) and not grads.payload:
+        return interp.call(interp.repo.get(f"{TR}.tensor_dict.EmptyTensorDict"), [])
+    gmap = payload_map(interp, grads)
+    keys = gmap.keys
+    jq = z3.Int("j!q")
+    all_expect = cx.fresh_bool("all_keys_expect_grad")
+    w = cx.fresh_int("bad_key")
+    n = lift(keys.length)
+    cx.assume(z3.Implies(all_expect, z3.ForAll([jq], z3.Implies(z3.And(0 <= jq, jq < n), expects_grad(keys.get(jq).ref)),
+                                               patterns=[keys.get(jq).ref])), tag="accumulate contract")
+    cx.assume(z3.Implies(z3.Not(all_expect), z3.And(0 <= w, w < n, z3.Not(expects_grad(keys.get(w).ref)))), tag="accumulate contract")
+    if not cx.branch(all_expect):
+        raise SymRaise(ExcValue("ValueError"))
+    has0, val0, stor0 = heap.snapshot()
+    dom = P.map_dom(interp, gmap)
+    fresh_stor = cx.fresh_func("clone_stor", TenS, IntS)
+    heap.has_f = lambda t: z3.If(dom(t), True, has0(t))
+    heap.val_f = lambda t, c: z3.If(dom(t), z3.If(has0(t), val0(t, c), ZERO) + gmap.get(t).elem([c]), val0(t, c))
+    heap.stor_f = lambda t: z3.If(z3.And(dom(t), z3.Not(has0(t))), fresh_stor(t), stor0(t))
+    cx.event("accumulate_call", keys=keys, pc_len=len(cx.pc))
+    return interp.call(interp.repo.get(f"{TR}.tensor_dict.EmptyTensorDict"), [])
+
+
+SUMMARIES = dict(OVERRIDES)
+SUMMARIES.update({
+    f"{TR}.diagonalize.Diagonalize.__init__": diag_init_contract,
+    f"{TR}.diagonalize.Diagonalize._compute": diag_compute_contract,
+    f"{TR}.jac.Jac._differentiate": jac_differentiate_contract,
+    f"{TR}.aggregate.Aggregate._compute": aggregate_compute_contract,
+    f"{TR}.accumulate.Accumulate._compute": accumulate_compute_contract,
+})
